@@ -20,24 +20,40 @@ LEVEL_TEXT = ("Coq theorems over an exact-rational (missing value = None) model 
               "old_step/old_c_mean with their refutations as regression witnesses); "
               "the float round trip rnd(rnd(s*rnd(rnd(1/s)*rnd(x-l)))+l) is within 4u|x-l|+u|x|+O(u^2) of x in the standard model of floating-point "
               "arithmetic, instantiated for 53-bit round-to-nearest (Flocq FLX); DenseScaledMatrix: untransform inverts transform, unscale/rescale in place keep scale*mat+location; "
+              "operations that do not re-standardise (reorder/sort/group_taxa, copies) keep every raw value (un-scaling commutes with selection), the stored column is "
+              "covariant under a change of unit and origin, histories are compositional; "
+              "the kernel expressions of the source (standardisation, un-scaling, per-summary reduction and un-scaling rule, zero-scale rule, contribution of matrix operands, "
+              "numpy call tables of the taxa routines, DenseScaledMatrix updates) are regenerated from the source on every run (Gen/C15_Kernel.v), proved equal to the model's "
+              "and the round-trip / scale-rule / covariance laws are proved about the generated definitions; "
               "the model is tied to the code by evaluating it inside Coq against every intermediate state of generated histories")
 LEVEL_NOTE = ("trusted: Coq kernel + vm_compute; float rounding is not modelled: location and scale of every step are taken from the implementation and "
               "checked inside Coq against the exact nanmean / nanvar (scale = 1 exactly iff the exact variance is 0), everything else is compared within "
               "2^-30(1+|x|) of the exact rational, NaN patterns, labels, arg-extrema (up to exact ties after the first step) and error/no-error exactly; "
-              "theorems are about the Gallina model, the tie to the code is differential on generated inputs")
+              "theorems are about the Gallina model, the tie to the code is differential on generated inputs plus the regenerated kernel expressions "
+              "(translator harness/translate/c15_kernel.py, fail closed, trusted); the 2^-30(1+|x|) tolerance is vacuous for values far below 1: for those only the "
+              "predicate's scale-aware criteria (relative to the largest raw value of the trait) and the kernel theorems speak")
 TECHNIQUE = "Coq proof over an executable exact-rational model; in-Coq vm_compute correspondence with the implementation on operation histories"
 RULE = ("case = (class B/E/G, raw matrix with optional taxa/taxa_grp labels — built by from_numpy, or (12%) by the constructor from stored values with an "
         "arbitrary location / positive scale —, list of taxa-axis operations with their operands) or (DenseScaledMatrix, "
-        "matrix, location, scale, op list); one PRNG; n in 0..20 (1,2 frequent), t in 1..4; per-trait column kinds: dyadic grid k/2^6, constant, few-valued "
-        "(ties), offset +-2^20 with step 8, NaN-sprinkled, all-NaN; operations select/delete/insert/adjoin (copies), remove/append/incorp (in place), "
-        "concat_taxa (self at any position among 1-2 other matrices); operands as ndarray or as a second matrix of any of the three classes; "
+        "matrix, location, scale, op list incl. copies); one PRNG; n in 0..20 (1,2 frequent; fixed cases with 130/260/300 taxa, thorough: random 128..300), t in 1..4; "
+        "per-trait column kinds: dyadic grid k/2^6, the grid scaled by 2^-40 or 2^13, 1 + k 2^-16, constant, few-valued "
+        "(ties), offset +-2^20 with step 8, NaN-sprinkled, all-NaN; operations select/delete/insert/adjoin (copies), remove/append/incorp (in place, on the SAME object "
+        "whose summaries were just read), reorder_taxa / sort_taxa / group_taxa(+ungroup) (in place, no re-standardisation), copy/deepcopy (method and copy module) and "
+        "re-assignment through the property setters, concat_taxa (self at any position among 0-2 other matrices); 20% of the operations go through the generic "
+        "dispatchers (select(..., axis=0/-2) ...); indices as array/list/tuple, int, index list or slice; operands as ndarray or as a second matrix of any of the three classes; "
+        "after every step: the source / the operands are unchanged and share no array with the result, matrices left behind are unchanged at the end; "
         "non-trivial = at least 2 operations of which one changes the taxa list of a matrix with >= 2 distinct raw rows; distinct by SHA-256 of the case")
 TRUSTED = ["the rounding-error theorem is about an abstract rounding operator with relative error u (Flocq FLX instance: no overflow/underflow); that numpy's float64 "
            "operations are such roundings is not proved, the predicate checks the bound (with slack 5u(|x-l|+|x|)) on every first-step entry",
            "numpy nanmean/nanstd/std/var/max/min/ptp/argmax/argmin: not modelled bit-exactly; their results enter the model as given location/scale "
            "(checked against exact nanmean/nanvar in Coq) or are compared in regime T (2^-30 relative) with the exact rational",
-           "numpy.take/delete/insert/append index semantics are modelled by list functions validated on every generated case"]
-ASSUMPTIONS = ["raw values on dyadic grids (|x| <= 64 step 2^-6, or +-2^20 offsets with step 8) so that the rounding error stays far below the 2^-30 tolerance",
+           "numpy.take/delete/insert/append index semantics are modelled by list functions validated on every generated case",
+           "reorder_taxa / sort_taxa / group_taxa / copies are evaluated in Coq as the selection by the corresponding permutation (identity for a copy) with the "
+           "location / scale the implementation kept; the expected order of sort_taxa()/group_taxa() (taxa_grp, then taxa name, stable) is computed by the harness",
+           "harness/translate/c15_kernel.py + pyexpr.py (ast -> Gallina, fail closed) and the entry-point enumeration (every method of the four anchored files and every "
+           "inherited public routine is driven or listed in SKIPPED / INHERITED_SKIPPED with a reason)"]
+ASSUMPTIONS = ["raw values on dyadic grids (|x| <= 64 step 2^-6, that grid times 2^-40 or 2^13, 1 + k 2^-16, or +-2^20 offsets with step 8) so that the rounding error stays far below the tolerances",
+               "trait-axis routines inherited by the breeding-value matrices (select_trait ... sort_trait) are outside the property (taxa-axis operations) and not driven",
                "ntrait >= 1; insert/incorp with an index list use as many value rows as indices (numpy broadcasting of a single row not generated)",
                "numpy.insert does not validate an index *list* (entries below -n wrap around in the enlarged array): such a step is not modelled, "
                "the history is compared up to it and the predicate resynchronises on the implementation's state",
@@ -51,10 +67,15 @@ SUBCLASS = {("B", "B"), ("E", "B"), ("G", "B"), ("E", "E"), ("G", "G")}      # (
 STATS = ["tmax", "tmin", "tmean", "trange", "tstd", "tvar"]
 INPLACE = ("append", "incorp", "remove")
 TOL = Fraction(1, 2 ** 30)
+REL40 = Fraction(1, 2 ** 40)       # relative to the largest |raw value| of the trait: unscale(), location
+REL36 = Fraction(1, 2 ** 36)       # ... maximum, minimum, mean, range on the original scale
 
 # ------------------------------------------------------------------ generation
 def _colkind(rng):
     k = rng.random()
+    if k < 0.05: return ("tiny",)                       # k/64 * 2^-40: anything like isclose()/a tolerance instead of the exact zero-scale test shows
+    if k < 0.09: return ("huge",)                       # k/64 * 2^13 (|x| < 2^19: one ulp stays far below the 2^-30 tolerance of a constant trait's stored zeros)
+    if k < 0.13: return ("nearone", rng.choice([1.0, -3.0]))     # base + k * 2^-16: spread far below the offset, still exact
     if k < 0.30: return ("grid",)
     if k < 0.48: return ("const", rng.choice([0.0, 1.0, -2.5, 5.0, 37.125, float(2 ** 20), -1048571.0]))
     if k < 0.66: return ("few", rng.choice([0.0, 10.0, -3.0]))
@@ -64,6 +85,9 @@ def _colkind(rng):
 
 def _val(rng, kind, fresh_const=False):
     if kind[0] == "grid": return rng.randint(-4096, 4096) / 64.0
+    if kind[0] == "tiny": return rng.randint(-4096, 4096) / 64.0 * 2.0 ** -40
+    if kind[0] == "huge": return rng.randint(-4096, 4096) / 64.0 * 2.0 ** 13
+    if kind[0] == "nearone": return kind[1] + rng.randint(-16, 16) * 2.0 ** -16
     if kind[0] == "const": return (kind[1] + rng.choice([1.0, -0.5, 8.0])) if fresh_const else kind[1]
     if kind[0] == "few": return kind[1] + rng.choice([-1.0, 0.0, 0.0, 1.0, 2.0])
     if kind[0] == "offset": return kind[1] + 8.0 * rng.randint(-16, 16)
@@ -92,8 +116,9 @@ def _labels(rng, ids, n, has_taxa, has_grp, dup=False):
     grp = [rng.randint(0, 3) for _ in range(n)] if has_grp else None
     return taxa, grp
 
-def _size(rng):
+def _size(rng, tier="quick"):
     k = rng.random()
+    if tier == "thorough" and k < 0.012: return rng.choice([128, 130, 256, 257, 300])     # more taxa than int8 / uint8 can count
     if k < 0.06: return 0
     if k < 0.18: return 1
     if k < 0.32: return 2
@@ -133,30 +158,47 @@ def _gen_bv(rng, tier, more_inplace):
     t = rng.choice([1, 1, 2, 2, 3, 4])
     kinds = [_colkind(rng) for _ in range(t)]
     nanrate = [rng.choice([0.0, 0.0, 0.0, 0.25, 0.5]) for _ in range(t)]
-    n = _size(rng)
+    n = _size(rng, tier)
     has_taxa, has_grp = rng.random() < 0.6, rng.random() < 0.5
+    if n > 100:
+        # with hundreds of taxa one deviating value gives a spread of ~1/sqrt(n): keep the offset / spread ratio inside the tolerance regime
+        kinds = [("const", 37.125) if (kd[0] == "const" and abs(kd[1]) > 1024) else kd for kd in kinds]
     raw = _rows(rng, n, kinds, nanrate)
     taxa, grp = _labels(rng, ids, n, has_taxa, has_grp)
     case = {"kind": "bv", "cls": cls, "t": t, "raw": raw, "taxa": taxa, "grp": grp, "trait": rng.random() < 0.5, "ops": []}
-    if rng.random() < 0.12:
+    # (not for traits whose spread is far below 1: stored values next to a location of order 10 would leave the tolerance regime)
+    if rng.random() < 0.12 and not any(kd[0] in ("tiny", "nearone") for kd in kinds):
         # built by the constructor from stored values with an arbitrary location / positive scale (not standardised):
         # "raw" holds the stored matrix, the matrix stands for scale*raw+location
         case["direct"] = {"loc": [rng.randint(-64, 64) / 4.0 for _ in range(t)], "sc": [rng.choice([0.25, 0.5, 1.0, 2.0, 4.0, 1.5, 3.0]) for _ in range(t)]}
     nops = rng.choice([0, 1, 2, 2, 3, 3, 4, 5]) if tier == "quick" else rng.choice([0, 1, 2, 3, 4, 5, 6])
     for _ in range(nops):
-        names = ["select", "select", "delete", "delete", "insert", "insert", "adjoin", "adjoin", "append", "incorp", "remove", "concat"]
-        if more_inplace: names += ["append", "incorp", "remove", "concat"] * 2
+        names = ["select", "select", "delete", "delete", "insert", "insert", "adjoin", "adjoin", "append", "incorp", "remove", "concat",
+                 "reorder", "sort", "copy"]
+        if more_inplace: names += ["append", "incorp", "remove", "concat"] * 2 + ["reorder", "sort", "copy"]
         name = rng.choice(names)
-        if name == "select":
+        if name == "reorder":
+            # reorder_taxa with a permutation derived (at run time, from the actual number of taxa) from these keys
+            op = {"op": "reorder", "key": [rng.randint(0, 9) for _ in range(24)]}
+        elif name == "sort":
+            op = {"op": "sort", "how": rng.choice(["sort", "sort", "group", "group+ungroup"])}
+        elif name == "copy":
+            op = {"op": "copy", "how": rng.choice(["copy", "copy.copy", "deepcopy", "copy.deepcopy", "deepcopy", "setters"])}
+        elif name == "select":
             m = rng.choice([0, 1, 1, 2, 3, n, n + 1]) if n else rng.choice([0, 0, 1])
             ix = [_index(rng, n, False, bad=0.02 if n else 1.0) for _ in range(m)]
             if n and rng.random() < 0.2: ix = sorted(set(i % n for i in ix if -n <= i < n))      # a plain subset
-            op = {"op": "select", "ix": ix}
+            op = {"op": "select", "ix": ix, "ixform": rng.choice(["array", "array", "list", "tuple"])}
             if all(-n <= i < n for i in ix): n = len(ix)
         elif name in ("delete", "remove"):
-            if rng.random() < 0.4:
+            r_ = rng.random()
+            if r_ < 0.4:
                 obj = _index(rng, n, False)
                 if -n <= obj < n: n -= 1
+            elif r_ < 0.52:
+                # a slice object (numpy.delete accepts int, slice or a sequence)
+                obj = {"slice": [rng.choice([None, 0, 1, 2, -2, -1]), rng.choice([None, 1, 2, 3, -1, n, n + 2]), rng.choice([None, 1, 2, -1])]}
+                n -= len(range(*slice(*obj["slice"]).indices(n)))
             else:
                 obj = [_index(rng, n, False, bad=0.02 if n else 1.0) for _ in range(rng.choice([0, 1, 2, 2, 3]))]
                 if all(-n <= i < n for i in obj): n -= len(set(i % n for i in obj)) if n else 0
@@ -178,14 +220,36 @@ def _gen_bv(rng, tier, more_inplace):
             if _operand_accepted(op, cls, has_taxa, has_grp): n += k
         else:                                                       # concat_taxa([self, others...])
             others = []
-            for _ in range(rng.choice([1, 1, 2])):
+            for _ in range(rng.choice([0, 1, 1, 1, 2, 2])):            # 0: concat_taxa([self]) alone must still build a new matrix
                 k = rng.choice([0, 1, 2, 3])
                 ot, og = _labels(rng, ids, k, has_taxa if rng.random() < 0.85 else not has_taxa, has_grp if rng.random() < 0.92 else not has_grp)
                 others.append({"cls": cls if rng.random() < 0.85 else rng.choice(["B", "E", "G"]), "raw": _rows(rng, k, kinds, nanrate, True), "taxa": ot, "grp": og})
             op = {"op": "concat", "others": others, "self_pos": rng.randint(0, len(others))}
             if all((o["cls"], cls) in SUBCLASS for o in others): n += sum(len(o["raw"]) for o in others)
+        if op["op"] in ROUTED and rng.random() < 0.2:
+            op["via"] = rng.choice(["axis0", "axis-2"])                  # through the generic dispatcher  m.select(..., axis = 0) ...
         case["ops"].append(op)
     return case
+
+KEEPS = ("copy", "reorder", "sort")          # operations that do not re-standardise: location / scale stay what they were
+ROUTED = ("select", "delete", "insert", "adjoin", "append", "incorp", "remove", "concat", "reorder", "sort")
+
+def _perm(key, n):
+    """the permutation handed to reorder_taxa: taxa ordered by the (cyclically repeated) keys, ties by position"""
+    return sorted(range(n), key=lambda i: (key[i % len(key)], i))
+
+def _obj_list(obj, n):
+    """positions denoted by a delete/remove argument: int, index list, or a slice (given n taxa)"""
+    if isinstance(obj, dict): return list(range(*slice(*obj["slice"]).indices(n)))
+    return obj
+
+def _sort_perm(taxa, grp):
+    """expected effect of sort_taxa()/group_taxa() with the default keys: stable order by (taxa_grp, taxa name); None when the library
+    has no key at all (ValueError), "unspec" when a taxon name is missing (ordering None against str is not defined)"""
+    if taxa is None and grp is None: return None
+    if taxa is not None and any(x is None for x in taxa): return "unspec"
+    n = len(taxa if taxa is not None else grp)
+    return sorted(range(n), key=lambda i: ((grp[i] if grp is not None else 0), ("t%d" % taxa[i]) if taxa is not None else "", i))
 
 def _operand_accepted(op, cls, has_taxa, has_grp):
     """rough guess used only to track the expected size while generating (the real decision is the implementation's)"""
@@ -209,8 +273,10 @@ def _gen_scaled(rng, tier):
     if rng.random() < 0.15: sc = rng.choice([1.0, 2.0, 0.5])
     ops = []
     for _ in range(rng.choice([1, 2, 3, 4])):
-        nm = rng.choice(["transform", "untransform", "rescale", "unscale", "rescale", "unscale"])
-        if nm in ("transform", "untransform"):
+        nm = rng.choice(["transform", "untransform", "rescale", "unscale", "rescale", "unscale", "copy"])
+        if nm == "copy":
+            ops.append({"op": "copy", "how": rng.choice(["copy", "copy.copy", "deepcopy", "copy.deepcopy"])})
+        elif nm in ("transform", "untransform"):
             ops.append({"op": nm, "m": _rows(rng, rng.choice([1, 2, 3]), kinds, nanrate), "copy": rng.random() < 0.5})
         else:
             ops.append({"op": nm, "inplace": rng.random() < 0.6})
@@ -220,7 +286,7 @@ WITNESS_CONST = {"kind": "bv", "cls": "B", "t": 1, "raw": [[0.1], [0.1], [0.1]],
 
 def gen_cases(rng, tier):
     cases = []
-    N = 420 if tier == "quick" else 6000
+    N = 390 if tier == "quick" else 6000
     # fixed corners: every class, constant / NaN / offset columns, size 1, empty
     for cls in ("B", "E", "G"):
         cases.append({"kind": "bv", "cls": cls, "t": 3, "raw": [[1.0, 5.0, 3.0], [2.0, 5.0, None], [4.0, 5.0, 7.0]], "taxa": [0, 1, 2], "grp": [1, 1, 2],
@@ -244,7 +310,17 @@ def gen_cases(rng, tier):
         cases.append({"kind": "bv", "cls": cls, "t": 1, "raw": [], "taxa": None, "grp": None, "trait": False,
                       "ops": [{"op": "append", "vals": [[10.0], [30.0]], "as": cls, "vtaxa": None, "vgrp": None, "ataxa": None, "agrp": None},
                               {"op": "concat", "self_pos": 0, "others": [{"cls": cls, "raw": [[1.0], [3.0]], "taxa": None, "grp": None}]}]})
+    # more taxa than int8 / uint8 can count: the extrema sit beyond position 127 / 255, indices beyond 255 are selected and removed
+    # (spread over the case list so that they land in different correspondence shards)
+    big = []
+    for cls, n in (("B", 130), ("E", 260), ("G", 300)):
+        raw = [[float((7 * i) % 23), 5.0 if i != n - 2 else None] for i in range(n)]
+        raw[n - 1][0] = 100.0; raw[n - 3][0] = -100.0
+        big.append({"kind": "bv", "cls": cls, "t": 2, "raw": raw, "taxa": list(range(n)), "grp": [i % 3 for i in range(n)], "trait": False,
+                    "ops": [{"op": "select", "ix": list(range(n - 1, -1, -1))[: n - 1] + [-n], "ixform": "list"}, {"op": "remove", "obj": [n - 1, 0]},
+                            {"op": "delete", "obj": {"slice": [None, None, 2]}}, {"op": "sort", "how": "group"}]})
     for i in range(N):
+        if i % 100 == 60 and big: cases.append(big.pop())
         if i % 9 == 8: cases.append(_gen_scaled(rng, tier))
         else: cases.append(_gen_bv(rng, tier, more_inplace=(i % 4 == 3)))
     return cases
@@ -313,8 +389,36 @@ def _operand(op, t):
         info = {"loc": _hx1(v.location), "scale": _hx1(v.scale), "mat": _hx2(v.mat)}
     return v, info
 
-def _ix(x):
-    return numpy.array(x, dtype="int64") if isinstance(x, list) else x
+def _ix(x, form="array"):
+    if isinstance(x, dict): return slice(*x["slice"])
+    if not isinstance(x, list): return x
+    if form == "list": return list(x)
+    if form == "tuple": return tuple(x)
+    return numpy.array(x, dtype="int64")
+
+FIELDS = ("mat", "location", "scale", "taxa", "taxa_grp")
+def _freeze(b):
+    """private copies of the arrays a matrix stands on (taken with numpy, not with the library's own copy routines)"""
+    return {k: (None if getattr(b, k) is None else numpy.array(getattr(b, k), copy=True)) for k in FIELDS}
+def _same_arr(x, y):
+    if x is None or y is None: return x is None and y is None
+    return x.shape == y.shape and bool(numpy.array_equal(x, y, equal_nan=True) if x.dtype.kind == "f" else all(p == q for p, q in zip(x, y)))
+def _unchanged(b, fz):
+    return all(_same_arr(getattr(b, k), fz[k]) for k in FIELDS)
+def _shared(b, others):
+    """fields of b that share memory with one of the given arrays"""
+    out = []
+    for k in FIELDS:
+        x = getattr(b, k)
+        if x is not None and any(o is not None and numpy.shares_memory(x, o) for o in others): out.append(k)
+    return out
+def _arrays_of(m):
+    return [getattr(m, k) for k in FIELDS]
+
+def _call(b, name, via, *args, **kw):
+    """the taxa routine itself, or the generic dispatcher of DenseTaxaTraitMatrix with the taxa axis given as 0 / -2"""
+    if via is None: return getattr(b, name + "_taxa")(*args, **kw)
+    return getattr(b, name)(*args, axis={"axis0": 0, "axis-2": -2}[via], **kw)
 
 def _run_bv(case):
     numpy.seterr(all="ignore")
@@ -328,44 +432,83 @@ def _run_bv(case):
     else:
         b = C.from_numpy(_arr(case["raw"], t), taxa=_tx(case["taxa"]), taxa_grp=_gp(case["grp"]), trait=trait)
     steps = [_snapshot(b, case["trait"])]
-    def same(x, y):
-        if x is None or y is None: return x is None and y is None
-        return x.shape == y.shape and bool(numpy.array_equal(x, y, equal_nan=True) if x.dtype.kind == "f" else all(p == q for p, q in zip(x, y)))
-    for op in case["ops"]:
+    watch = []                  # (step, matrix left behind, its frozen state): must still be what it was when the history ends
+    for k, op in enumerate(case["ops"], 1):
         rec = {}
-        nb = None
+        nm = op["op"]; via = op.get("via")
+        fz = _freeze(b)
+        inplace = nm in INPLACE or nm in ("reorder", "sort") or (nm == "copy" and op["how"] == "setters")
+        operands = []           # arrays handed in: must be left alone and must not end up inside the result
+        ofz = []
         try:
-            nm = op["op"]
-            if nm == "select": nb = b.select_taxa(_ix(op["ix"]))
-            elif nm == "delete": nb = b.delete_taxa(_ix(op["obj"]))
-            elif nm == "remove":
-                nb = copy.deepcopy(b); nb.remove_taxa(_ix(op["obj"]))
+            nb = None
+            if nm == "select": nb = _call(b, "select", via, _ix(op["ix"], op.get("ixform", "array")))
+            elif nm == "delete": nb = _call(b, "delete", via, _ix(op["obj"]))
+            elif nm == "remove": _call(b, "remove", via, _ix(op["obj"]))
+            elif nm == "reorder": _call(b, "reorder", via, numpy.array(_perm(op["key"], b.ntaxa), dtype="int64"))
+            elif nm == "sort":
+                if op["how"] == "sort": _call(b, "sort", via)
+                else:
+                    if via is None: b.group_taxa()
+                    else: b.group(axis={"axis0": 0, "axis-2": -2}[via])
+                    hasg = b.taxa_grp is not None             # without taxa_grp group_taxa() only sorts
+                    if hasg: rec["grouped"] = bool(b.is_grouped_taxa())
+                    if op["how"] == "group+ungroup":
+                        b.ungroup_taxa()
+                        if hasg: rec["grouped"] = rec["grouped"] and not bool(b.is_grouped_taxa())
+            elif nm == "copy":
+                how = op["how"]
+                if how == "copy": nb = b.copy()
+                elif how == "copy.copy": nb = copy.copy(b)
+                elif how == "deepcopy": nb = b.deepcopy()
+                elif how == "copy.deepcopy": nb = copy.deepcopy(b)
+                else:
+                    # the property setters: re-assign every array (fresh copies) on the same object
+                    b.mat = b.mat.copy(); b.location = b.location.copy(); b.scale = b.scale.copy()
+                    if b.taxa is not None: b.taxa = b.taxa.copy()
+                    if b.taxa_grp is not None: b.taxa_grp = b.taxa_grp.copy()
             elif nm in ("insert", "adjoin", "append", "incorp"):
                 v, info = _operand(op, t)
                 if info: rec["vparams"] = info
                 kw = {"taxa": _tx(op["ataxa"]), "taxa_grp": _gp(op["agrp"])}
-                if nm == "insert": nb = b.insert_taxa(_ix(op["obj"]), v, **kw)
-                elif nm == "adjoin": nb = b.adjoin_taxa(v, **kw)
-                elif nm == "append":
-                    nb = copy.deepcopy(b); nb.append_taxa(v, **kw)
-                else:
-                    nb = copy.deepcopy(b); nb.incorp_taxa(_ix(op["obj"]), v, **kw)
+                operands = (_arrays_of(v) if info else [v]) + [kw["taxa"], kw["taxa_grp"]]
+                ofz = [None if o is None else numpy.array(o, copy=True) for o in operands]
+                if nm == "insert": nb = _call(b, "insert", via, _ix(op["obj"]), v, **kw)
+                elif nm == "adjoin": nb = _call(b, "adjoin", via, v, **kw)
+                elif nm == "append": _call(b, "append", via, v, **kw)
+                else: _call(b, "incorp", via, _ix(op["obj"]), v, **kw)
             elif nm == "concat":
                 ms = [_cls(o["cls"]).from_numpy(_arr(o["raw"], t), taxa=_tx(o["taxa"]), taxa_grp=_gp(o["grp"]), trait=trait) for o in op["others"]]
                 rec["oparams"] = [{"loc": _hx1(m.location), "scale": _hx1(m.scale), "mat": _hx2(m.mat)} for m in ms]
+                operands = [a for m in ms for a in _arrays_of(m)]
+                ofz = [None if o is None else numpy.array(o, copy=True) for o in operands]
                 ms.insert(op["self_pos"], b)
-                nb = C.concat_taxa(ms)
+                nb = C.concat_taxa(ms) if via is None else C.concat(ms, axis={"axis0": 0, "axis-2": -2}[via])
             else:
                 raise RuntimeError("unknown op " + nm)
-            rec.update(_snapshot(nb, case["trait"]))
-            b = nb
+            res = b if inplace else nb
+            rec.update(_snapshot(res, case["trait"]))
+            if not inplace:
+                rec["src_unchanged"] = _unchanged(b, fz)
+                # a shallow copy may share by definition; everything else must stand on its own arrays
+                if not (nm == "copy" and op["how"] in ("copy", "copy.copy")):
+                    rec["shared_src"] = _shared(res, _arrays_of(b))
+                watch.append((k, b, fz))
+            rec["shared_opd"] = _shared(res, operands)
+            rec["opd_unchanged"] = all(_same_arr(o, f) for o, f in zip(operands, ofz))
+            b = res
         except Exception as e:
+            rec = {kk: vv for kk, vv in rec.items() if kk in ("vparams", "oparams")}
             rec["exc"] = type(e).__name__; rec["msg"] = str(e)[:160]
-            if op["op"] in INPLACE and nb is not None:
-                # a failing in-place operation must leave the matrix (a deep copy of the current one) as it was
-                rec["failed_unchanged"] = all(same(getattr(nb, a), getattr(b, a)) for a in ("mat", "location", "scale", "taxa", "taxa_grp"))
+            # a failing operation must leave the matrix as it was (in place: nothing half done; copy: the source untouched)
+            rec["failed_unchanged"] = _unchanged(b, fz)
+            if not rec["failed_unchanged"]:
+                b = C(mat=fz["mat"], location=fz["location"], scale=fz["scale"], taxa=fz["taxa"], taxa_grp=fz["taxa_grp"], trait=trait)
         steps.append(rec)
-    return {"steps": steps}
+    out = {"steps": steps}
+    bad = [k for k, m, fz in watch if m is not b and not _unchanged(m, fz)]
+    if bad: out["left_behind_changed"] = bad
+    return out
 
 def _run_scaled(case):
     numpy.seterr(all="ignore")
@@ -376,11 +519,22 @@ def _run_scaled(case):
     sc = numpy.array(case["sc"], dtype=float) if isinstance(case["sc"], list) else float(case["sc"])
     b = DenseScaledMatrix(_arr(case["raw"], t), location=loc, scale=sc)
     def state(): return {"mat": _hx2(b.mat), "loc": _hx1(b.location), "scale": _hx1(b.scale)}
+    def frz(m): return [numpy.array(x, copy=True) for x in (m.mat, m.location, m.scale)]
+    def same(m, fz): return all(_same_arr(x, y) for x, y in zip((m.mat, m.location, m.scale), fz))
     steps = [state()]
-    for op in case["ops"]:
+    watch = []
+    for k, op in enumerate(case["ops"], 1):
         rec = {}
         try:
-            if op["op"] in ("transform", "untransform"):
+            if op["op"] == "copy":
+                how = op["how"]
+                nb = b.copy() if how == "copy" else copy.copy(b) if how == "copy.copy" else b.deepcopy() if how == "deepcopy" else copy.deepcopy(b)
+                rec["ret"] = []
+                rec["cls_ok"] = type(nb) is type(b)
+                rec["shared_src"] = [nm_ for nm_, x, y in (("mat", nb.mat, b.mat), ("location", nb.location, b.location), ("scale", nb.scale, b.scale)) if numpy.shares_memory(x, y)]
+                watch.append((k, b, frz(b)))
+                b = nb
+            elif op["op"] in ("transform", "untransform"):
                 m = _arr(op["m"], t); m0 = m.copy()
                 r = getattr(b, op["op"])(m, copy=op["copy"])
                 rec["ret"] = _hx2(r)
@@ -394,7 +548,10 @@ def _run_scaled(case):
         except Exception as e:
             rec["exc"] = type(e).__name__; rec["msg"] = str(e)[:160]
         steps.append(rec)
-    return {"steps": steps}
+    out = {"steps": steps}
+    bad = [k for k, m, fz in watch if not same(m, fz)]
+    if bad: out["left_behind_changed"] = bad
+    return out
 
 def run_impl(case):
     return _run_bv(case) if case["kind"] == "bv" else _run_scaled(case)
@@ -423,6 +580,7 @@ def _l_select(xs, ix):
     return out
 def _l_delete(xs, obj):
     n = len(xs)
+    obj = _obj_list(obj, n)
     idx = [obj] if isinstance(obj, int) else list(obj)
     ks = set()
     for i in idx:
@@ -454,6 +612,16 @@ class _Exp:
 def _expected(exp, op, cls):
     """property-level expectation: ('ok', new state, labels_defined) | ('err',) | ('either', new state)"""
     nm = op["op"]
+    if nm == "copy":
+        return ("ok", _Exp(list(exp.rows), exp.taxa, exp.grp, exp.exact), True)
+    if nm in ("reorder", "sort"):
+        if nm == "reorder": pm = _perm(op["key"], len(exp.rows))
+        else:
+            pm = _sort_perm(exp.taxa, exp.grp)
+            if pm is None: return ("err",)
+            if pm == "unspec": return ("unspec",)
+        return ("ok", _Exp(_l_select(exp.rows, pm), None if exp.taxa is None else _l_select(exp.taxa, pm),
+                           None if exp.grp is None else _l_select(exp.grp, pm), exp.exact), True)
     if nm == "select":
         r = _l_select(exp.rows, op["ix"])
         if r is None: return ("err",)
@@ -530,12 +698,15 @@ def _check_state(tag, exp, snap, t, first, bad, standardised=True):
     for j in range(t):
         col = [r[j] for r in exp.rows]
         mcol = [r[j] for r in mat]; ucol = [r[j] for r in uns]
+        obs = [abs(v) for v in col if v is not None]
+        colmax = max(obs) if obs else Fraction(0)
+        rel = exp.exact and colmax > 0       # scale-aware criteria (the 2^-30(1+|x|) tolerance says nothing about values far below 1)
         # missing stays missing, nothing else becomes missing
         if [v is None for v in ucol] != [v is None for v in col]: B("trait %d: missing-value pattern of unscale() differs from the raw values" % j)
         if [v is None for v in mcol] != [v is None for v in col]: B("trait %d: missing-value pattern of the stored matrix differs from the raw values" % j)
         for i in range(n):
-            if col[i] is not None and ucol[i] is not None and not _close(ucol[i], col[i]):
-                B("trait %d taxon %d: unscale() = %s, raw value %s" % (j, i, float(ucol[i]), float(col[i]))); break
+            if col[i] is not None and ucol[i] is not None and (not _close(ucol[i], col[i]) or (rel and abs(ucol[i] - col[i]) > REL40 * colmax)):
+                B("trait %d taxon %d: unscale() = %r, raw value %r" % (j, i, float(ucol[i]), float(col[i]))); break
         if first and exp.exact and loc[j] is not None:
             # "to rounding error": the bound proved in C15_roundtrip_rounding_error_binary64 (4u|x-l| + u|x| + O(u^2), u = 2^-53), with slack
             for i in range(n):
@@ -549,10 +720,11 @@ def _check_state(tag, exp, snap, t, first, bad, standardised=True):
             mean = sum(vals) / len(vals)
             var = sum((v - mean) ** 2 for v in vals) / len(vals)
             spread = max(vals) - min(vals)
-            const = (var == 0) if exp.exact else (spread <= Fraction(1, 2 ** 36) * (1 + abs(mean)))
+            const = (var == 0) if exp.exact else (spread <= Fraction(1, 2 ** 36) * min(1 + abs(mean), colmax))
             if loc[j] is None or sc[j] is None: B("trait %d: location/scale NaN although values were observed" % j)
             else:
-                if not _close(loc[j], mean): B("trait %d: location %s is not the mean of the observed raw values %s" % (j, float(loc[j]), float(mean)))
+                if not _close(loc[j], mean) or (rel and abs(loc[j] - mean) > REL40 * colmax):
+                    B("trait %d: location %r is not the mean of the observed raw values %r" % (j, float(loc[j]), float(mean)))
                 if const:
                     if sc[j] != 1:
                         if 0 < sc[j] <= TOL * (1 + abs(mean)):
@@ -560,7 +732,8 @@ def _check_state(tag, exp, snap, t, first, bad, standardised=True):
                         elif exp.exact: B("trait %d: constant trait has scale %r, expected 1" % (j, float(sc[j])))
                     elif any(v is not None and v != 0 for v in mcol) and exp.exact: B("trait %d: constant trait not stored as zeros" % j)
                 else:
-                    if sc[j] <= 0 or not _close(sc[j] * sc[j], var): B("trait %d: scale %s is not the standard deviation of the raw values (var %s)" % (j, float(sc[j]), float(var)))
+                    if sc[j] <= 0 or not _close(sc[j] * sc[j], var) or (rel and abs(sc[j] * sc[j] - var) > Fraction(1, 2 ** 20) * var):
+                        B("trait %d: scale %r is not the standard deviation of the raw values (var %r)" % (j, float(sc[j]), float(var)))
                     sv = [v for v in mcol if v is not None]
                     if len(sv) == len(vals):
                         sm = sum(sv) / len(sv)
@@ -596,9 +769,13 @@ def _check_state(tag, exp, snap, t, first, bad, standardised=True):
         else:
             want = {"tmax": raw["max"], "tmin": raw["min"], "tmean": raw["mean"], "trange": raw["range"], "tvar": raw["var"]}
             for k, w in want.items():
-                if not _close(g[(k, 1)], w): B("trait %d: %s(unscale=True) = %s, raw summary %s" % (j, k, None if g[(k, 1)] is None else float(g[(k, 1)]), float(w)))
+                gv = g[(k, 1)]
+                tolk = (Fraction(1, 2 ** 30) * w + Fraction(1, 2 ** 90) * colmax * colmax) if k == "tvar" else REL36 * colmax
+                if not _close(gv, w) or (rel and abs(gv - w) > tolk):
+                    B("trait %d: %s(unscale=True) = %r, raw summary %r" % (j, k, None if gv is None else float(gv), float(w)))
             s1 = g[("tstd", 1)]
-            if s1 is None or s1 < 0 or not _close(s1 * s1, raw["var"]): B("trait %d: tstd(unscale=True) = %s, raw variance %s" % (j, None if s1 is None else float(s1), float(raw["var"])))
+            if s1 is None or s1 < 0 or not _close(s1 * s1, raw["var"]) or (rel and abs(s1 * s1 - raw["var"]) > Fraction(1, 2 ** 29) * raw["var"] + Fraction(1, 2 ** 90) * colmax * colmax):
+                B("trait %d: tstd(unscale=True) = %r, raw variance %r" % (j, None if s1 is None else float(s1), float(raw["var"])))
             if raw["var"] == 0 and exp.exact and (s1 is not None and s1 > TOL or g[("tvar", 1)] is not None and g[("tvar", 1)] > TOL):
                 B("trait %d: constant trait has non-zero tstd/tvar(unscale=True)" % j)
             for k, ext in (("targmax", raw["max"]), ("targmin", raw["min"])):
@@ -636,6 +813,7 @@ def _pred_bv(case, out):
     if d and (steps[0]["loc"] != [_hx(x) for x in d["loc"]] or steps[0]["scale"] != [_hx(x) for x in d["sc"]] or steps[0]["mat"] != [[_hx(float("nan") if v is None else v) for v in r] for r in case["raw"]]):
         bad.append("step 0 op=constructor: matrix, location or scale not stored as given")
     _check_state("step 0 op=%s" % ("constructor" if d else "from_numpy"), exp, steps[0], t, True, bad, standardised=not d)
+    std = not d            # is the matrix standardised?  copies / reorderings keep what they find, every other routine re-standardises
     for k, op in enumerate(case["ops"], 1):
         snap = steps[k]
         tag = "step %d op=%s" % (k, op["op"])
@@ -654,13 +832,21 @@ def _pred_bv(case, out):
             if e[0] == "ok": bad.append("%s: raised %s (%s)" % (tag, snap["exc"], snap.get("msg", "")))
             continue
         ne = e[1]
+        if snap.get("src_unchanged") is False: bad.append("%s: the operation changed the matrix it was applied to (it must return a new matrix)" % tag)
+        if snap.get("shared_src"): bad.append("%s: the result shares %s with the matrix it was made from" % (tag, "/".join(snap["shared_src"])))
+        # (labels handed to a matrix that has none are stored as given: only the labelled case is required to be free of sharing)
+        sh = [f for f in snap.get("shared_opd", []) if f in ("mat", "location", "scale") or (f == "taxa" and exp.taxa is not None) or (f == "taxa_grp" and exp.grp is not None)]
+        if sh: bad.append("%s: the result shares %s with an operand" % (tag, "/".join(sh)))
+        if snap.get("opd_unchanged") is False: bad.append("%s: the operation modified its operand" % tag)
+        if snap.get("grouped") is False: bad.append("%s: is_grouped_taxa() is wrong after group_taxa()/ungroup_taxa()" % tag)
         if ne is None:
             bad.append("%s: succeeded although taxa_grp is missing for some taxa" % tag); ne = None
         if snap["cls"] != CLS[cls][1]: bad.append("%s: result class %s" % (tag, snap["cls"]))
         if ne is not None:
             if e[0] == "either": ne.taxa = ne.grp = "undef"
             nb = len(bad)
-            _check_state(tag, ne, snap, t, False, bad)
+            std = std or op["op"] not in KEEPS
+            _check_state(tag, ne, snap, t, False, bad, standardised=std)
             failed = len(bad) > nb
         else: failed = True
         if failed or e[0] == "either":
@@ -672,6 +858,8 @@ def _pred_bv(case, out):
                 break
         else:
             exp = ne
+    if out.get("left_behind_changed"):
+        bad.append("matrices left behind at step(s) %s (the source of a copy / of a copy-on-manipulation routine) were changed by later operations on the result" % out["left_behind_changed"])
     return bad
 
 def _pred_scaled(case, out):
@@ -693,6 +881,11 @@ def _pred_scaled(case, out):
             if "exc" in s: bad.append("%s: raised %s" % (tag, s["exc"])); continue
             ret = [[_fr(h) for h in r] for r in s["ret"]]
             nmat, nloc, nsc = rd(s)
+            if op["op"] == "copy":
+                if (nmat, nloc, nsc) != (mat, loc, sc): bad.append("%s: the copy differs from the original" % tag)
+                if not s["cls_ok"]: bad.append("%s: the copy has another class" % tag)
+                if s["shared_src"]: bad.append("%s: the copy shares %s with the original" % (tag, "/".join(s["shared_src"])))
+                continue
             def up(v, j): return None if v is None or sc[j] is None or loc[j] is None else v * sc[j] + loc[j]
             def dn(v, j): return None if v is None or sc[j] is None or loc[j] is None else (v - loc[j]) / sc[j]
             raw = [[up(v, j) for j, v in enumerate(r)] for r in mat]
@@ -746,6 +939,8 @@ def _pred_scaled(case, out):
             mat, loc, sc = nmat, nloc, nsc
     except OverflowError:
         bad.append("infinite value produced")
+    if out.get("left_behind_changed"):
+        bad.append("the original of the copy made at step(s) %s was changed by later in-place operations on the copy" % out["left_behind_changed"])
     return bad
 
 def _clause_id(cl):
@@ -787,9 +982,12 @@ def describe(case, out):
     n = len(case["raw"])
     cols = list(zip(*case["raw"])) if n else []
     nerr = sum(1 for s in out.get("steps", []) if "exc" in s)
-    return {"kind": "bv", "cls": case["cls"], "n": "0" if n == 0 else "1" if n == 1 else "2" if n == 2 else "3-8" if n <= 8 else "9-20", "t": case["t"],
+    return {"kind": "bv", "cls": case["cls"], "n": "0" if n == 0 else "1" if n == 1 else "2" if n == 2 else "3-8" if n <= 8 else "9-20" if n <= 20 else ">127", "t": case["t"],
             "nops": len(case["ops"]), "nan": any(v is None for r in case["raw"] for v in r),
             "const_col": any(len(set(c)) == 1 for c in cols), "offset": any(v is not None and abs(v) > 2 ** 19 for r in case["raw"] for v in r),
+            "tiny": any(v is not None and 0 < abs(v) < 2.0 ** -20 for r in case["raw"] for v in r),
+            "lifecycle": "+".join(sorted({o["op"] for o in case["ops"] if o["op"] in ("copy", "reorder", "sort")})) or "none",
+            "routed": any("via" in o for o in case["ops"]),
             "labels": ("t" if case["taxa"] is not None else "-") + ("g" if case["grp"] is not None else "-"), "errors": min(nerr, 2),
             "direct": bool(case.get("direct")), "inplace_or_concat": "+".join(sorted({o["op"] for o in case["ops"] if o["op"] in INPLACE + ("concat",)})) or "none"}
 
@@ -854,15 +1052,30 @@ def _emit_bv(case, out):
     d = case.get("direct")
     if "exc" in steps[0]: return "false" if d else "(case_check %s [] ObsErr [])" % r0
     items = []
-    ncur = steps[0]["shape"][0]
+    ncur = steps[0]["shape"][0]; cur_taxa, cur_grp = steps[0]["taxa"], steps[0]["grp"]
+    std = not d
     for op, rec in zip(case["ops"], steps[1:]):
         nm = op["op"]
+        pm = None
+        if nm in KEEPS and not std:
+            break       # location / scale given to the constructor are kept: the model (which re-standardises) does not describe this step
+        if "exc" not in rec and nm not in KEEPS: std = True
+        if nm == "reorder": pm = _perm(op["key"], ncur)              # reorder_taxa(perm) = select_taxa(perm) in place
+        elif nm == "copy": pm = list(range(ncur))                   # a copy = the identity selection
+        elif nm == "sort":
+            pm = _sort_perm(cur_taxa, cur_grp)                      # sort_taxa()/group_taxa() = reorder by (taxa_grp, taxa), stable
+            if pm == "unspec": break
+            if pm is None:
+                if "exc" in rec: continue                           # no key at all: ValueError, nothing changed
+                return "false"
+        ncur0 = ncur
         if nm in ("insert", "incorp") and isinstance(op["obj"], list) and any(not (-ncur <= i <= ncur) for i in op["obj"]):
             break                   # numpy.insert with an unvalidated index list: not modelled, the history is compared up to here
-        if "exc" not in rec: ncur = rec["shape"][0]
-        if nm == "select": o = "(OSelect %s)" % E.lst(op["ix"], E.z)
-        elif nm == "delete": o = "(ODelete %s)" % _idx(op["obj"])
-        elif nm == "remove": o = "(ORemove %s)" % _idx(op["obj"])
+        if "exc" not in rec: ncur = rec["shape"][0]; cur_taxa, cur_grp = rec["taxa"], rec["grp"]
+        if pm is not None: o = "(OSelect %s)" % E.lst(pm, E.z)
+        elif nm == "select": o = "(OSelect %s)" % E.lst(op["ix"], E.z)
+        elif nm == "delete": o = "(ODelete %s)" % _idx(_obj_list(op["obj"], ncur0))
+        elif nm == "remove": o = "(ORemove %s)" % _idx(_obj_list(op["obj"], ncur0))
         elif nm == "insert": o = "(OInsert %s %s)" % (_idx(op["obj"]), _opd(op, rec, t, cls))
         elif nm == "incorp": o = "(OIncorp %s %s)" % (_idx(op["obj"]), _opd(op, rec, t, cls))
         elif nm == "adjoin": o = "(OAdjoin %s)" % _opd(op, rec, t, cls)
@@ -893,7 +1106,8 @@ def _emit_scaled(case, out):
     items = []
     for k, op in enumerate(case["ops"], 1):
         prev, s = steps[k - 1], steps[k]
-        if op["op"] == "transform": o = "(STransform %s)" % _colsf(op["m"], t)
+        if op["op"] == "copy": o = "(STransform %s)" % _colsf([], t)        # a copy: the state is unchanged (a transform of zero rows)
+        elif op["op"] == "transform": o = "(STransform %s)" % _colsf(op["m"], t)
         elif op["op"] == "untransform": o = "(SUntransform %s)" % _colsf(op["m"], t)
         elif op["op"] == "unscale": o = "(SUnscale %s)" % E.b(op["inplace"])
         else:
@@ -917,3 +1131,106 @@ def _emit_scaled(case, out):
 def emit_case(case, out):
     if "exc" in out: return "false"
     return _emit_bv(case, out) if case["kind"] == "bv" else _emit_scaled(case, out)
+
+# ------------------------------------------------------------------ entry points of the anchored modules (fail closed)
+_BVF = "pybrops/popgen/bvmat/DenseBreedingValueMatrix.py"
+_SMF = "pybrops/core/mat/DenseScaledMatrix.py"
+_C16 = "file / data-frame conversion: property C16 (saving, loading and copying reproduce objects exactly)"
+# file -> class -> {method: parameters}: every one is driven by run_impl with these parameters
+COVERED = {
+    _BVF: {"DenseBreedingValueMatrix": {
+        "__init__": ["self", "mat", "location", "scale", "taxa", "taxa_grp", "trait", "**kwargs"],      # `direct` cases and every from_numpy
+        "__copy__": ["self"], "__deepcopy__": ["self", "memo"], "copy": ["self"], "deepcopy": ["self", "memo"],      # op copy
+        "mat": ["self", "value"], "location": ["self", "value"], "scale": ["self", "value"],                          # op copy, how = setters (+ getters everywhere)
+        "adjoin_taxa": ["self", "values", "taxa", "taxa_grp", "**kwargs"], "delete_taxa": ["self", "obj", "**kwargs"],
+        "insert_taxa": ["self", "obj", "values", "taxa", "taxa_grp", "**kwargs"], "select_taxa": ["self", "indices", "**kwargs"],
+        "_restandardize": ["self", "mat"], "_manipulate_unscaled": ["self", "method", "**kwargs"],
+        "append_taxa": ["self", "values", "taxa", "taxa_grp", "**kwargs"], "remove_taxa": ["self", "obj", "**kwargs"],
+        "incorp_taxa": ["self", "obj", "values", "taxa", "taxa_grp", "**kwargs"],
+        "targmax": ["self"], "targmin": ["self"], "tmax": ["self", "unscale"], "tmean": ["self", "unscale"], "tmin": ["self", "unscale"],
+        "trange": ["self", "unscale"], "tstd": ["self", "unscale"], "tvar": ["self", "unscale"], "unscale": ["self"],
+        "concat_taxa": ["cls", "mats", "**kwargs"], "from_numpy": ["cls", "mat", "taxa", "taxa_grp", "trait", "**kwargs"]}},
+    "pybrops/popgen/bvmat/DenseEstimatedBreedingValueMatrix.py": {"DenseEstimatedBreedingValueMatrix": {
+        "__init__": ["self", "mat", "location", "scale", "taxa", "taxa_grp", "trait", "**kwargs"]}},
+    "pybrops/popgen/bvmat/DenseGenomicEstimatedBreedingValueMatrix.py": {"DenseGenomicEstimatedBreedingValueMatrix": {
+        "__init__": ["self", "mat", "location", "scale", "taxa", "taxa_grp", "trait", "**kwargs"]}},
+    _SMF: {"DenseScaledMatrix": {
+        "__init__": ["self", "mat", "location", "scale", "**kwargs"], "__copy__": ["self"], "__deepcopy__": ["self", "memo"],
+        "copy": ["self"], "deepcopy": ["self", "memo"], "location": ["self", "value"], "scale": ["self", "value"],
+        "transform": ["self", "mat", "copy"], "untransform": ["self", "mat", "copy"], "rescale": ["self", "inplace"], "unscale": ["self", "inplace"]}},
+}
+SKIPPED = {
+    _BVF: {"DenseBreedingValueMatrix.__repr__": "textual representation, no values",
+           "DenseBreedingValueMatrix.to_pandas": _C16, "DenseBreedingValueMatrix.to_csv": _C16, "DenseBreedingValueMatrix.to_hdf5": _C16,
+           "DenseBreedingValueMatrix.from_pandas": _C16, "DenseBreedingValueMatrix.from_csv": _C16, "DenseBreedingValueMatrix.from_hdf5": _C16,
+           "check_is_DenseBreedingValueMatrix": "type guard"},
+    "pybrops/popgen/bvmat/DenseEstimatedBreedingValueMatrix.py": {"check_is_DenseEstimatedBreedingValueMatrix": "type guard"},
+    "pybrops/popgen/bvmat/DenseGenomicEstimatedBreedingValueMatrix.py": {"check_is_DenseGenomicEstimatedBreedingValueMatrix": "type guard"},
+    _SMF: {"check_is_DenseScaledMatrix": "type guard"},
+}
+# public routines a breeding-value matrix INHERITS (run-time introspection): driven, or skipped with a reason
+_TRAIT = ("trait-axis routine inherited from DenseTaxaTraitMatrix/DenseTraitMatrix: not a taxa-axis operation (outside the property's quantifier); "
+          "NB they are not overridden: the copy-on-manipulation ones rebuild the matrix with location 0 / scale 1 (TypeError in the two subclasses), "
+          "the in-place ones leave location / scale with the old length or order")
+INHERITED_COVERED = {"select", "delete", "insert", "adjoin", "append", "remove", "incorp", "concat",        # op[...]["via"]: generic dispatchers, taxa axis as 0 / -2
+                     "reorder", "reorder_taxa", "sort", "sort_taxa", "lexsort_taxa", "group", "group_taxa", "ungroup_taxa", "is_grouped_taxa"}
+INHERITED_SKIPPED = dict(
+    {n: _TRAIT for n in ("adjoin_trait", "append_trait", "concat_trait", "delete_trait", "incorp_trait", "insert_trait", "remove_trait", "reorder_trait",
+                         "select_trait", "sort_trait", "lexsort_trait")},
+    **{"lexsort": "returns indices only (its taxa form lexsort_taxa is what sort_taxa / group_taxa call)", "ungroup": "dispatcher of ungroup_taxa (metadata only: property C03)",
+       "is_grouped": "dispatcher of is_grouped_taxa (metadata only: property C03)"})
+
+def _entry_points(repo):
+    """every class, method and module-level function of the four anchored files is either driven by run_impl (COVERED, with exactly
+    the parameters named there) or listed in SKIPPED with a reason; every public routine the breeding-value matrix inherits is
+    classified likewise; anything new, re-parametrised or vanished fails the check until it is classified"""
+    import ast, inspect
+    from translate import pyexpr as P
+    for rel, classes in COVERED.items():
+        tree = P.parse_file(repo, rel)
+        skip = SKIPPED.get(rel, {})
+        seen = set()
+        for n in tree.body:
+            if isinstance(n, ast.FunctionDef):
+                seen.add(n.name)
+                if n.name not in skip: raise P.Untranslatable("%s: new function %s is neither driven by the C15 check nor listed in SKIPPED" % (rel, n.name))
+            elif isinstance(n, ast.ClassDef):
+                if n.name not in classes: raise P.Untranslatable("%s: new class %s is not classified" % (rel, n.name))
+                cov = classes[n.name]
+                for m in n.body:
+                    if not isinstance(m, ast.FunctionDef): continue
+                    q = "%s.%s" % (n.name, m.name); seen.add(q)
+                    params = [a.arg for a in m.args.args] + [a.arg for a in m.args.kwonlyargs] + (["**" + m.args.kwarg.arg] if m.args.kwarg else [])
+                    if m.args.vararg: params.append("*" + m.args.vararg.arg)
+                    if m.name in cov:
+                        getter = any(ast.unparse(d) == "property" for d in m.decorator_list)
+                        if not getter and params != cov[m.name]:
+                            raise P.Untranslatable("%s: %s now takes %s (the driver passes %s): extend the generators" % (rel, q, params, cov[m.name]))
+                    elif q not in skip:
+                        raise P.Untranslatable("%s: new method %s is neither driven by the C15 check nor listed in SKIPPED" % (rel, q))
+                for name in cov:
+                    if "%s.%s" % (n.name, name) not in seen: raise P.Untranslatable("%s: %s.%s has disappeared" % (rel, n.name, name))
+                seen.add(n.name)
+        for cname in classes:
+            if cname not in seen: raise P.Untranslatable("%s: class %s has disappeared" % (rel, cname))
+        for name in skip:
+            if name not in seen: raise P.Untranslatable("%s: %s (listed in SKIPPED) has disappeared" % (rel, name))
+    # inherited public routines (the source tree under test is the one imported: check.py verifies that)
+    own = set(COVERED[_BVF]["DenseBreedingValueMatrix"]) | {k.split(".", 1)[1] for k in SKIPPED[_BVF] if "." in k}
+    B = _cls("B")
+    for name, member in inspect.getmembers(B):
+        if name.startswith("_") or name in own: continue
+        if isinstance(inspect.getattr_static(B, name), property): continue          # read-only views / label setters (labels: property C03)
+        if not callable(member): continue
+        if name not in INHERITED_COVERED and name not in INHERITED_SKIPPED:
+            raise P.Untranslatable("DenseBreedingValueMatrix inherits a public routine %s that is neither driven by the C15 check nor listed in INHERITED_SKIPPED" % name)
+    for name in list(INHERITED_COVERED) + list(INHERITED_SKIPPED):
+        if not callable(getattr(B, name, None)): raise P.Untranslatable("DenseBreedingValueMatrix no longer has the inherited routine %s" % name)
+
+# ------------------------------------------------------------------ kernel expressions regenerated from the source
+def translate(repo, gen_dir):
+    """regenerate Gen/C15_Kernel.v (standardisation, un-scaling rules, reductions, zero-scale rule, operand contributions,
+    numpy call tables of the taxa routines, DenseScaledMatrix kernels) from the current source; fail closed"""
+    from translate import c15_kernel
+    _entry_points(repo)
+    return [c15_kernel.translate(repo, gen_dir)]
